@@ -136,7 +136,7 @@ func corrC05(outDir string, seed uint64, tier string, replay string) *report {
 	r := newRng(seed)
 	cs := newCaseSet(outDir, "C05_check", []string{"GC.Schemes.Keys", "GC.Schemes.Checks", "GC.Schemes.SchemeCases", "GC.Codec.Types"},
 		"Z * bytes * bytes * list kdf_entry * bytes * verdict", "ok_check", 1200)
-	sink := &checkCaseSink{cs, rep}
+	sink := &checkCaseSink{cs: cs, rep: rep}
 	nMut := 800
 	if tier == "thorough" {
 		nMut = 6000
